@@ -135,7 +135,7 @@ PROPS = {
     ),
     "C12": dict(
         modules=["JPV.Props.C12", "JPV.Props.C08", "JPV.Props.C07"],
-        theorems=["JPV.Props.C12", "JPV.Props.C12_needs_range", "JPV.Props.C12_partial", "JPV.Props.C12_filter_partial", "JPV.Props.C12_fixpoint", "JPV.Props.C12_quoting", "JPV.Props.C08_canonical",
+        theorems=["JPV.Props.C12", "JPV.Props.C12_same_nodes", "JPV.Props.C12_needs_range", "JPV.Props.C12_partial", "JPV.Props.C12_filter_partial", "JPV.Props.C12_fixpoint", "JPV.Props.C12_quoting", "JPV.Props.C08_canonical",
                   "JPV.Props.C07_slice"],
         tables=[T + "precedences_model", T + "precedence_consts", T + "binary_operators_model"],
         explore=ct.explore_c12,
